@@ -1,8 +1,99 @@
 import BddVerif.Drive.Util
-/-! Driver for C20 — stub, to be written. -/
+import BddVerif.Drive.Hex
+import BddVerif.Model.Dot
+/-!
+Driver for C20: `agree` = the observed text is byte for byte `render (dotStmts …)` (or both panic).
+The property predicate is evaluated on the observed TEXT, without `render`/`dotStmts`: the text is read back
+with `parseDot` and compared with the node array `A`:
+  * one header (first), one footer (last), one invisible entry vertex, exactly one entry edge, to the root;
+  * terminal vertices: `0` and `1`, only `1` with zero-pruning;
+  * exactly one vertex per decision node `p ≥ 2`, labelled `names[var p]`;
+  * exactly the edges `p → high(p)` solid and `p → low(p)` dotted, except — with zero-pruning — those into 0;
+  * the graph read back evaluates like `A` on all valuations (n ≤ 12; sampled above), a missing edge meaning 0
+    (only for arrays that are valid Bdds).
+Labels that would need escaping (`"`, `\`, line feed) make the text unreadable for any `.dot` reader; the
+property is not claimed for them (they are compared with the model only, tag `unsafe-label`).
+-/
 namespace B.Drive.C20
-open B B.Drive
+open B B.Drive B.Dot B.Drive.Hex
 
-def handle (key : String) (_ins _obs : List String) : Verdict := Verdict.bad ("key " ++ key)
+def maxTT : Nat := 12
+
+def safeName (s : String) : Bool := !(s.toList.any fun c => c == '"' || c == '\\' || c == '\n')
+
+/-- valid Bdd: terminals exact, variables below `n`, links in range, variables strictly increasing along edges -/
+def wellFormed (A : Arr) : Bool :=
+  let n := numVars A
+  A.size ≥ 1 && A[0]! == ⟨n, 0, 0⟩ && (A.size < 2 || A[1]! == ⟨n, 1, 1⟩) &&
+  (List.range' 2 (A.size - 2)).all fun p =>
+    let nd := A[p]!
+    nd.var < n && nd.low < A.size && nd.high < A.size && nd.var < (A[nd.low]!).var && nd.var < (A[nd.high]!).var
+
+def count (ss : List Stmt) (s : Stmt) : Nat := (ss.filter (· == s)).length
+
+def sameSet {α} [BEq α] (xs ys : List α) : Bool :=
+  xs.length == ys.length && xs.all ys.elem && ys.all xs.elem && xs.eraseDups.length == xs.length
+
+def samples (n : Nat) : List (Nat → Bool) :=
+  [fun _ => false, fun _ => true, fun i => i % 2 == 0, fun i => i % 2 == 1, fun i => i % 3 == 0,
+   fun i => (i * 7 + 3) % 5 < 2, fun i => i < n / 2, fun i => i ≥ n / 2]
+
+def checkDot (A : Arr) (names : List String) (pruned : Bool) (text : String) : Option String :=
+  match parseDot text with
+  | none => some "unparsable"
+  | some ss =>
+    let n := numVars A
+    let inner := List.range' 2 (A.size - 2)
+    let vertices := ss.filterMap fun | .vertex p l => some (p, l) | _ => none
+    let edges := ss.filterMap fun | .edge p q s => some (p, q, s == Style.filled) | _ => none
+    let entries := ss.filterMap fun | .initEdge p => some p | _ => none
+    let terminals := ss.filterMap fun | .terminal b => some b | _ => none
+    let expVertices := inner.map fun p => (p, names.getD (A[p]!).var "?")
+    let expEdges := inner.flatMap fun p =>
+      let nd := A[p]!
+      (if pruned && nd.high == 0 then [] else [(p, nd.high, true)]) ++
+      (if pruned && nd.low == 0 then [] else [(p, nd.low, false)])
+    if ss.head? != some .header || ss.getLast? != some .footer || count ss .header != 1 || count ss .footer != 1 then
+      some "frame"
+    else if count ss .initNode != 1 then some "entry-vertex"
+    else if entries != [A.size - 1] then some "entry-edge"
+    else if !sameSet terminals (if pruned then [true] else [false, true]) then some "terminals"
+    else if !sameSet vertices expVertices then some "vertices"
+    else if !sameSet edges expEdges then some "edges"
+    else if !wellFormed A then none
+    else
+      let val (v : Nat → Bool) : String → Bool := fun s => v (names.idxOf s)
+      let ok (v : Nat → Bool) : Bool := evalDot ss (val v) (n + 1) == evalArr A v
+      if n ≤ maxTT then
+        (if (List.range (2 ^ n)).all fun i => ok (valOfIndex n i) then none else some "evaluation")
+      else if (samples n).all ok then none else some "evaluation"
+
+def handle (key : String) (ins obs : List String) : Verdict :=
+  match key, ins, obs with
+  | "C20.dot", [bdd, names, pruned], [text, written] =>
+    match parseArr? bdd, decNames? names with
+    | some A, some names =>
+      let pruned := pruned == "1"
+      let model := match toDotString A names pruned with
+        | .ok t => encText 'x' t
+        | _ => "panic"
+      let safe := names.all safeName
+      let claimed := names.length == numVars A && wellFormed A
+      let fail :=
+        if text == "panic" then (if claimed then some "outcome:panic" else none)
+        else if written != "=" then some "write_as_dot_string-differs"
+        else if !safe then none
+        else match decText? 'x' text with
+          | none => some "not-utf8"
+          | some t => checkDot A names pruned t
+      { agree := model == text, model := if model.length > 300 then (model.take 300).toString ++ "…" else model, fail,
+        nontrivial := A.size > 2 && text != "panic",
+        tags := [if pruned then "pruned" else "full",
+          if text == "panic" then "panic" else if !safe then "unsafe-label" else if !wellFormed A then "invalid-bdd"
+          else if !isCanon A then "non-canonical" else if A.size ≤ 2 then "const" else "canonical",
+          s!"nodes{Nat.log2 (A.size + 1)}"] }
+    | _, _ => Verdict.bad "args"
+  | "C20.dot", _, ["badset"] => Verdict.bad "harness generated an invalid name set"
+  | _, _, _ => Verdict.bad ("key " ++ key)
 
 end B.Drive.C20
